@@ -321,6 +321,8 @@ fn csv_types() -> Vec<DataType> {
         Timestamp(TimeUnit::Nanosecond, Some("UTC".into())), Timestamp(TimeUnit::Nanosecond, None), Timestamp(TimeUnit::Second, Some("-05:30".into())),
         Utf8, Utf8, Utf8, Utf8View, LargeUtf8, Dictionary(Box::new(Int8), Box::new(Utf8)), Dictionary(Box::new(UInt16), Box::new(Utf8)), Null,
         Binary, Duration(TimeUnit::Second),
+        RunEndEncoded(Arc::new(Field::new("run_ends", Int32, false)), Arc::new(Field::new("values", Utf8, true))),
+        RunEndEncoded(Arc::new(Field::new("run_ends", Int16, false)), Arc::new(Field::new("values", Int64, true))),
     ]
 }
 
